@@ -13,7 +13,7 @@ fn lim(tier: Tier) -> Limits {
     }
 }
 
-fn single(plan: Plan, universe: u8, tier: Tier) -> Box<dyn Config> {
+pub fn single(plan: Plan, universe: u8, tier: Tier) -> Box<dyn Config> {
     let mut c = SetCfg::new(plan, universe);
     c.max_buckets = if super::width() == 16 { 64 } else { 32 };
     let label = c.label();
